@@ -133,6 +133,12 @@ async def run_history(loop, sc: Scenario, make=None, projector=None, latency_us=
                         continue  # message API refuses it; broker-level histories stay within C16
                     choices += [(o, ci, hi)] * w.get(o, 1)
         choices += ["sleep"] * w.get("sleep", 2)
+        for q in queues:
+            choices += [("qflush", q)] * w.get("flush", 0)
+            choices += [("qdeclare", q)] * w.get("declare", 0)
+            # a queue is deleted only while nobody is listening on it or holds one of its messages
+            if not any(c["q"] == q and (c["on"] or c["held"]) for c in cons):
+                choices += [("qdelete", q)] * w.get("delete", 0)
         ch = rng.choice(choices)
         stats["ops"] += 1
         if ch == "enq":
@@ -150,6 +156,19 @@ async def run_history(loop, sc: Scenario, make=None, projector=None, latency_us=
             ms = rng.choice(sc.sleeps_ms)
             oplog.append(("sleep", ms))
             await asyncio.sleep(ms / 1000)
+        elif ch[0] in ("qflush", "qdeclare", "qdelete"):
+            q = ch[1]
+            oplog.append(ch)
+            if ch[0] == "qflush":
+                await do(n, lambda: broker.queue_flush(q))
+            elif ch[0] == "qdeclare":
+                await do(n, lambda: broker.queue_declare(q))
+            else:
+                await do(n, lambda: broker.queue_delete(q))
+                await broker.queue_declare(q)      # (the histories go on using the queue ...
+                for ci, c in enumerate(cons):      #  ... through consumers created after it was declared again)
+                    if c["q"] == q:
+                        c["obj"] = broker.get_consumer(q, sc.consumers[ci][1], None, MessageCategory[c["cat"]])
         elif ch[0] == "start":
             c = cons[ch[1]]
             oplog.append(("start", ch[1]))
